@@ -308,8 +308,8 @@ SIZES = {
     "large": {"k2": (222, 230), "k3": (32, 34), "k4": (14, 15), "kd": (222, 230), "eyeK": ((180, 190), (250, 260)),
               "bd": ((120, 130), (70, 80), (120, 128), (200, 220)), "s2": (222, 230), "bd2": ((120, 130), (125, 135), (70, 80), (210, 230)),
               "mixq": ((70, 80), (90, 100)), "mixm": ((80, 90), (80, 90), (70, 80), (80, 90), (70, 80)),
-              # (operators with a TOP-LEVEL Permutation / Sparse leaf stay moderate: `Op.wf` checks `Nodup` of the permutation /
-              #  of the coordinate list, quadratic in the interpreted Lean driver; as Kronecker factors / blocks they are large)
+              # (operators with a TOP-LEVEL Permutation leaf stay moderate and no standalone Sparse is drawn ("sparse": None):
+              #  `Op.wf` checks `Nodup` of the permutation / of the coordinate list, quadratic in the interpreted Lean driver)
               "k2b": (105, 110), "k2c": (105, 110), "s2p": (105, 110), "line": (20000, 22000), "perm": (11000, 12000),
               "house": (40000, 42000), "sparse": None, "plain": (135000, 145000)},
 }
@@ -1479,7 +1479,7 @@ def run(ctx):
         "the forwarding analysis looks at the operator argument only: what a forwarding rule does with the RESULT of the callee is covered by the runtime tie, not by the dispatch-level theorem",
         "peak memory is judged against the Lean live-set model Op.peakMM (A @ X; measured/model up to 1.03 on the large size class) and Op.ruleCost + Op.peakMM of the result operator (rule families), plus a FIXED allowance of 256 KiB = 64 KiB Python objects + 3 numpy ufunc iteration buffers of 8192 elements (measured: `d[:, None] * X` allocates one such buffer besides its result); IEEE values of the results are not judged here (C06–C11)",
         "constants of Op.ruleCost (cf = dense copies of a FACTOR made by the generic rule, ownW = linear-size vectors per member made by a structural rule) are read off the source of the rules (doc comment in Model/RuleSkeleton.lean) and are upper bounds; LAPACK work space is not traced",
-        "while a measured call runs, the address space of the check process may grow by 3 GiB at most (RLIMIT_AS, restored afterwards): a MemoryError whose requested array has ≥ n²/4 entries is judged as a densification; operators with a top-level Permutation / Sparse leaf stay at n ≈ 11–12 k in the large class because Op.wf (Nodup) is quadratic in the interpreted driver",
+        "while a measured call runs, the address space of the check process may grow by 3 GiB at most (RLIMIT_AS, restored afterwards): a MemoryError whose requested array has ≥ n²/4 entries is judged as a densification; operators with a top-level Permutation leaf stay at n ≈ 11–12 k in the large class because Op.wf (Nodup of the permutation) is quadratic in the interpreted driver; for the same reason (Nodup of the coordinate list) the large class draws no standalone Sparse operator — Sparse occurs there as a Kronecker factor / block only, the standalone one in the small class",
         "the shape tree of a RESULT operator is read off the real object by class (TriangularInv is given the cost class of a Triangular product, Transpose / Adjoint of a leaf that of a one-term Sum); result classes outside the language fall back to the blanket bound of round 1 and are listed in the evidence",
     ])
     print(json.dumps({"evaluations": stats["evaluations"], "distinct_nontrivial": len(stats["nontrivial"]), "violations": len(viol),
